@@ -1101,3 +1101,305 @@ Proof.
   split; [exact Hg1|]. split; [exact Hg2|]. split; [exact Hnm|].
   apply Frame_OtherSame. eapply Frame_trans; eauto.
 Qed.
+
+(* ------------------------------------------------------------------ *)
+(* the stored state, itemised as in the property statement *)
+
+Lemma find_of_filter {A} (p : A -> bool) l x t : filter p l = x :: t -> find p l = Some x.
+Proof.
+  induction l as [|y l IH]; simpl; [discriminate|].
+  destruct (p y) eqn:E; intro H; [congruence | auto].
+Qed.
+
+Lemma chunks_wf_nth cs ds :
+  0 < cs -> chunks_wf cs ds ->
+  forall i d, nth_error ds i = Some d ->
+  0 < zlen d <= cs /\ ((S i < llen ds)%nat -> zlen d = cs).
+Proof.
+  intros Hcs. induction ds as [|e t IH]; intros Hwf i d Hn.
+  - destruct i; discriminate.
+  - apply chunks_wf_cons in Hwf. destruct i as [|i]; simpl in Hn.
+    + inversion Hn; subst e. destruct Hwf as [[-> H]|[_ [H _]]]; simpl; split; try lia.
+    + destruct Hwf as [[-> _]|[_ [_ Ht]]]; [destruct i; discriminate|].
+      destruct (IH Ht i d Hn) as [H1 H2]. split; [exact H1|]. intro Hi. apply H2. simpl in Hi. lia.
+Qed.
+
+Lemma number_from_n f ds : forall k,
+  map c_n (number_from f k ds) = map (fun i => k + Z.of_nat i) (seq 0 (llen ds)).
+Proof.
+  induction ds as [|d ds IH]; intro k; [reflexivity|].
+  simpl. f_equal; [lia|]. rewrite IH, <- seq_shift, map_map. apply map_ext. intro i. lia.
+Qed.
+
+Lemma number_from_file f ds : forall k, Forall (fun ch => c_file ch = f) (number_from f k ds).
+Proof. induction ds; intro k; simpl; constructor; auto. Qed.
+
+(* the statement of C18 about what is stored for file f *)
+Definition stored_as_stated (st : store) (f cs : Z) (content : list Z) : Prop :=
+  let chunks := find_chunks st f in
+  concat (map c_data chunks) = content /\
+  find_file st f = Some (mkFile f (zlen content) cs) /\
+  map c_n chunks = map Z.of_nat (seq 0 (llen chunks)) /\
+  Forall (fun ch => c_file ch = f) chunks /\
+  (forall i ch, nth_error chunks i = Some ch ->
+     0 < zlen (c_data ch) <= cs /\ ((S i < llen chunks)%nat -> zlen (c_data ch) = cs)).
+
+Lemma stored_facts c f cs content st :
+  0 < cs -> Stored c f cs content st -> stored_as_stated st f cs content.
+Proof.
+  intros Hcs [Hch Hfile _ _]. unfold stored_as_stated.
+  rewrite (find_chunks_number _ _ _ Hch).
+  destruct (split_wf cs content Hcs) as [Hcat Hwf].
+  split; [rewrite number_from_data; exact Hcat|].
+  split; [unfold find_file; eapply find_of_filter; exact Hfile|].
+  split.
+  { rewrite number_from_n. assert (E : llen (number_from f 0 (split cs content)) = llen (split cs content)).
+    { pose proof (number_from_zlen f 0 (split cs content)) as H. unfold zlen in H. lia. }
+    rewrite E. apply map_ext. intro i. lia. }
+  split; [apply number_from_file|].
+  intros i ch Hn.
+  assert (Hd : nth_error (split cs content) i = Some (c_data ch)).
+  { rewrite <- (number_from_data f 0 (split cs content)). rewrite nth_error_map, Hn. reflexivity. }
+  destruct (chunks_wf_nth cs _ Hcs Hwf i _ Hd) as [H1 H2]. split; [exact H1|].
+  intro Hi. apply H2.
+  pose proof (number_from_zlen f 0 (split cs content)) as H. unfold zlen in H. lia.
+Qed.
+
+(* C18, upload part: for all contents, chunk sizes 0 < cs <= B and write partitions *)
+Theorem upload_concat_partial c f cs parts st0 :
+  0 < cs <= cfg_B c -> fresh st0 f -> ids_fresh st0 ->
+  exists st, upload_run c st0 f cs parts = Some st /\
+             stored_as_stated st f cs (concat parts) /\ OtherSame f st0 st.
+Proof.
+  intros Hcs Hfresh Hids.
+  destruct (upload_canonical c f cs parts st0 Hcs Hfresh Hids) as [st [Hrun [Hst Hos]]].
+  exists st. split; [exact Hrun|]. split; [|exact Hos]. eapply stored_facts; [lia | exact Hst].
+Qed.
+
+(* C18, suspend/resume: whatever the points of suspension, the final stored
+   state is that of the uninterrupted single-write upload *)
+Theorem suspend_resume_partial c f cs content script st0 :
+  0 < cs <= cfg_B c -> script_ok c script -> fresh st0 f -> ids_fresh st0 ->
+  exists st st',
+    client_upload c st0 f cs content script = Some st /\
+    upload_run c st0 f cs [content] = Some st' /\
+    find_chunks st f = find_chunks st' f /\ find_file st f = find_file st' f /\
+    stored_as_stated st f cs content /\ OtherSame f st0 st.
+Proof.
+  intros Hcs Hok Hfresh Hids.
+  destruct (client_upload_canonical c f cs content script st0 Hcs Hok Hfresh Hids) as [st [Hrun [Hst Hos]]].
+  destruct (upload_canonical c f cs [content] st0 Hcs Hfresh Hids) as [st' [Hrun' [Hst' _]]].
+  simpl concat in Hst'. rewrite app_nil_r in Hst'.
+  exists st, st'. split; [exact Hrun|]. split; [exact Hrun'|].
+  pose proof (stored_facts c f cs content st ltac:(lia) Hst) as Hf.
+  pose proof (stored_facts c f cs content st' ltac:(lia) Hst') as Hf'.
+  split.
+  { rewrite (find_chunks_number _ _ _ (sd_chunks _ _ _ _ _ Hst)), (find_chunks_number _ _ _ (sd_chunks _ _ _ _ _ Hst')). reflexivity. }
+  split.
+  { destruct Hf as [_ [-> _]]. destruct Hf' as [_ [-> _]]. reflexivity. }
+  split; assumption.
+Qed.
+
+(* ------------------------------------------------------------------ *)
+(* Delete *)
+
+Lemma filter_single {A} (p : A -> bool) l x :
+  filter p l = [x] ->
+  exists l1 l2, l = l1 ++ x :: l2 /\ (forall y, In y (l1 ++ l2) -> p y = false) /\ p x = true.
+Proof.
+  induction l as [|y l IH]; simpl; [discriminate|].
+  destruct (p y) eqn:E; intro H.
+  - inversion H; subst y. exists [], l. split; [reflexivity|]. split; [|exact E].
+    intros z Hz. simpl in Hz.
+    destruct (p z) eqn:Ez; [|reflexivity].
+    assert (In z (filter p l)) by (apply filter_In; auto). rewrite H2 in H0. destruct H0.
+  - destruct (IH H) as [l1 [l2 [-> [Hn Hx]]]]. exists (y :: l1), l2. split; [reflexivity|]. split; [|exact Hx].
+    intros z [<-|Hz]; [exact E | apply Hn; exact Hz].
+Qed.
+
+Lemma filter_remove_other {A} (p q : A -> bool) l :
+  (forall x, p x = true -> q x = false) -> filter q (remove_first p l) = filter q l.
+Proof.
+  intro H. induction l as [|x l IH]; [reflexivity|]. simpl.
+  destruct (p x) eqn:E.
+  - rewrite (H x E). reflexivity.
+  - simpl. rewrite IH. reflexivity.
+Qed.
+
+Lemma delete_untracked_inv c f cs content st :
+  cfg_tracked c = false -> Stored c f cs content st ->
+  exists st', delete c st f = (st', UOk) /\ no_chunks st' f /\ no_file st' f /\ OtherSame f st st'.
+Proof.
+  intros Htr [Hch Hfile _ _]. unfold delete. rewrite Htr.
+  destruct (filter_single _ _ _ Hfile) as [l1 [l2 [Hfiles [Hn Hx]]]].
+  assert (Hl1 : forall y, In y l1 -> (f_id y =? f) = false) by (intros; apply Hn, in_or_app; auto).
+  unfold find_file. rewrite Hfiles, (find_middle _ l1 _ l2 Hl1 Hx), (remove_first_middle _ l1 _ l2 Hl1 Hx).
+  eexists. split; [reflexivity|]. split; [|split; [|split]]; cbn.
+  - apply filter_is_not.
+  - intros r Hr. apply Hn in Hr. lia.
+  - apply filter_not_not.
+  - rewrite Hfiles, !filter_app. simpl. rewrite Z.eqb_refl. reflexivity.
+Qed.
+
+(* C18: a deleted file leaves nothing behind (untracked bucket) *)
+Theorem delete_leaves_nothing c f cs parts st0 :
+  0 < cs <= cfg_B c -> cfg_tracked c = false -> fresh st0 f -> ids_fresh st0 ->
+  exists st st',
+    upload_run c st0 f cs parts = Some st /\ delete c st f = (st', UOk) /\
+    no_chunks st' f /\ no_file st' f /\ dopen st' f = DOpenErr ENotFound /\ OtherSame f st0 st'.
+Proof.
+  intros Hcs Htr Hfresh Hids.
+  destruct (upload_canonical c f cs parts st0 Hcs Hfresh Hids) as [st [Hrun [Hst Hos]]].
+  destruct (delete_untracked_inv c f cs _ st Htr Hst) as [st' [Hdel [Hnc [Hnf Hos']]]].
+  exists st, st'. split; [exact Hrun|]. split; [exact Hdel|]. split; [exact Hnc|]. split; [exact Hnf|].
+  split; [|eapply OtherSame_trans; eauto].
+  unfold dopen. rewrite (find_file_none _ _ Hnf). reflexivity.
+Qed.
+
+(* tracked bucket: Delete leaves a marker, Cleanup removes file, chunks and marker *)
+Lemma remove_first_app_last {A} (p : A -> bool) l x :
+  p x = false -> remove_first p (l ++ [x]) = remove_first p l ++ [x].
+Proof.
+  intro H. induction l as [|y l IH]; simpl.
+  - rewrite H. reflexivity.
+  - destruct (p y); [reflexivity | rewrite IH; reflexivity].
+Qed.
+
+Lemma remove_first_incl {A} (p : A -> bool) l x : In x (remove_first p l) -> In x l.
+Proof.
+  induction l as [|y l IH]; simpl; [auto|].
+  destruct (p y); simpl; [auto|]. intros [H|H]; auto.
+Qed.
+
+Lemma filter_is_file_other f g l : f <> g -> filter (is_file f) (filter (not_file g) l) = filter (is_file f) l.
+Proof.
+  intro H. induction l as [|x l IH]; [reflexivity|]. simpl.
+  unfold not_file at 1. destruct (c_file x =? g) eqn:E; simpl.
+  - rewrite IH. unfold is_file at 2. assert (E2 : (c_file x =? f) = false) by lia. rewrite E2. reflexivity.
+  - rewrite IH. reflexivity.
+Qed.
+
+(* the state of file f while the markers before its "deleted" marker mf are cleaned up *)
+Definition pending (f : Z) (mf : marker) (K : list chunk) (rec : filerec) (st : store) : Prop :=
+  exists lA, s_markers st = lA ++ [mf] /\
+             (forall m, In m lA -> m_file m <> f /\ m_id m <> m_id mf) /\
+             filter (is_file f) (s_chunks st) = K /\
+             filter (fun r => f_id r =? f) (s_files st) = [rec].
+
+Lemma cleanup_one_pending f mf K rec st m :
+  m_file m <> f -> m_id m <> m_id mf -> pending f mf K rec st -> pending f mf K rec (cleanup_one st m).
+Proof.
+  intros Hf Hid [lA [Hms [HlA [Hch Hfiles]]]]. unfold cleanup_one.
+  destruct (has_marker_id st (m_id m)); [|exists lA; auto].
+  unfold pending. cbn [s_markers set_markers delete_chunks set_chunks set_files s_chunks s_files].
+  exists (remove_first (fun x => m_id x =? m_id m) lA). split; [|split; [|split]].
+  - rewrite Hms. apply remove_first_app_last. lia.
+  - intros x Hx. apply remove_first_incl in Hx. apply HlA. exact Hx.
+  - rewrite filter_is_file_other by congruence. exact Hch.
+  - rewrite filter_remove_other; [exact Hfiles|]. intros x Hx. lia.
+Qed.
+
+Lemma cleanup_fold_pending f mf K rec : forall ms st,
+  (forall m, In m ms -> m_file m <> f /\ m_id m <> m_id mf) ->
+  pending f mf K rec st -> pending f mf K rec (fold_left cleanup_one ms st).
+Proof.
+  induction ms as [|m ms IH]; intros st Hms Hp; [exact Hp|].
+  simpl. apply IH; [intros; apply Hms; simpl; auto|].
+  destruct (Hms m ltac:(simpl; auto)). apply cleanup_one_pending; auto.
+Qed.
+
+(* files that have no marker are not touched by Cleanup *)
+Lemma cleanup_one_other g st m :
+  m_file m <> g ->
+  filter (is_file g) (s_chunks (cleanup_one st m)) = filter (is_file g) (s_chunks st) /\
+  filter (fun r => f_id r =? g) (s_files (cleanup_one st m)) = filter (fun r => f_id r =? g) (s_files st) /\
+  (forall x, In x (s_markers (cleanup_one st m)) -> In x (s_markers st)).
+Proof.
+  intro Hg. unfold cleanup_one. destruct (has_marker_id st (m_id m)); [|auto].
+  cbn [s_markers set_markers delete_chunks set_chunks set_files s_chunks s_files].
+  split; [apply filter_is_file_other; congruence|]. split.
+  - apply filter_remove_other. intros x Hx. lia.
+  - intros x Hx. apply remove_first_incl in Hx. exact Hx.
+Qed.
+
+Lemma cleanup_fold_other g : forall ms st,
+  (forall m, In m ms -> m_file m <> g) ->
+  filter (is_file g) (s_chunks (fold_left cleanup_one ms st)) = filter (is_file g) (s_chunks st) /\
+  filter (fun r => f_id r =? g) (s_files (fold_left cleanup_one ms st)) = filter (fun r => f_id r =? g) (s_files st).
+Proof.
+  induction ms as [|m ms IH]; intros st Hms; [auto|].
+  simpl. destruct (IH (cleanup_one st m) ltac:(intros; apply Hms; simpl; auto)) as [H1 H2].
+  destruct (cleanup_one_other g st m ltac:(apply Hms; simpl; auto)) as [H3 [H4 _]].
+  split; congruence.
+Qed.
+
+Definition delete_cleanup (c : cfg) (st : store) (f : Z) : option store :=
+  match delete c st f with
+  | (st1, UOk) =>
+      match cleanup c st1 with
+      | (st2, UOk) => Some st2
+      | _ => None
+      end
+  | _ => None
+  end.
+
+Lemma delete_cleanup_inv c f cs content st :
+  cfg_tracked c = true -> Stored c f cs content st ->
+  exists st', delete_cleanup c st f = Some st' /\
+              no_chunks st' f /\ no_file st' f /\ no_marker st' f /\
+              (forall g, no_marker st g -> g <> f ->
+                 filter (is_file g) (s_chunks st') = filter (is_file g) (s_chunks st) /\
+                 filter (fun r => f_id r =? g) (s_files st') = filter (fun r => f_id r =? g) (s_files st)).
+Proof.
+  intros Htr [Hch Hfile Hnm Hfresh]. specialize (Hnm Htr).
+  unfold delete_cleanup, delete. rewrite Htr, (find_marker_none _ _ Hnm).
+  unfold cleanup. rewrite Htr. cbn [negb s_markers bump set_markers].
+  set (mf := mkMarker (s_next st) f MDeleted 0 0).
+  set (st1 := bump (set_markers st (s_markers st ++ [mf]))).
+  eexists. split; [reflexivity|].
+  rewrite fold_left_app. cbn [fold_left].
+  assert (Hold : forall m, In m (s_markers st) -> m_file m <> f /\ m_id m <> m_id mf).
+  { intros m Hm. split; [apply Hnm; exact Hm|]. apply Hfresh in Hm. cbn. lia. }
+  assert (Hp : pending f mf (number_from f 0 (split cs content)) (mkFile f (zlen content) cs)
+                 (fold_left cleanup_one (s_markers st) st1)).
+  { apply cleanup_fold_pending; [exact Hold|]. exists (s_markers st). auto. }
+  destruct Hp as [lA [Hms [HlA [Hch' Hfiles']]]].
+  set (sta := fold_left cleanup_one (s_markers st) st1) in *.
+  unfold cleanup_one. unfold has_marker_id. rewrite Hms.
+  replace (lA ++ [mf]) with (lA ++ mf :: []) by reflexivity.
+  rewrite existsb_middle by (apply Z.eqb_refl).
+  cbn [s_markers set_markers delete_chunks set_chunks set_files s_chunks s_files m_file mf m_id].
+  destruct (filter_single _ _ _ Hfiles') as [l1 [l2 [Hfl [Hn Hx]]]].
+  assert (Hl1 : forall y, In y l1 -> (f_id y =? f) = false) by (intros; apply Hn, in_or_app; auto).
+  split; [apply filter_is_not|]. split; [|split].
+  - intros r Hr. rewrite Hfl, (remove_first_middle _ l1 _ l2 Hl1 Hx) in Hr. apply Hn in Hr. lia.
+  - intros m Hm. rewrite Hms in Hm.
+    replace (lA ++ [mf]) with (lA ++ mf :: []) in Hm by reflexivity.
+    rewrite remove_first_middle in Hm.
+    + rewrite app_nil_r in Hm. apply HlA in Hm. tauto.
+    + intros x Hx'. apply HlA in Hx'. cbn in Hx'. lia.
+    + apply Z.eqb_refl.
+  - intros g Hg Hgf.
+    destruct (cleanup_fold_other g (s_markers st) st1 Hg) as [H1 H2]. fold sta in H1, H2.
+    split.
+    + rewrite filter_is_file_other by congruence. exact H1.
+    + rewrite filter_remove_other; [exact H2|]. intros x Hx'. lia.
+Qed.
+
+(* C18: a deleted file leaves nothing behind (tracked bucket: Delete, then Cleanup) *)
+Theorem delete_cleanup_leaves_nothing c f cs parts st0 :
+  0 < cs <= cfg_B c -> cfg_tracked c = true -> fresh st0 f -> ids_fresh st0 ->
+  exists st st',
+    upload_run c st0 f cs parts = Some st /\ delete_cleanup c st f = Some st' /\
+    no_chunks st' f /\ no_file st' f /\ no_marker st' f /\ dopen st' f = DOpenErr ENotFound /\
+    (forall g, no_marker st g -> g <> f ->
+       filter (is_file g) (s_chunks st') = filter (is_file g) (s_chunks st) /\
+       filter (fun r => f_id r =? g) (s_files st') = filter (fun r => f_id r =? g) (s_files st)).
+Proof.
+  intros Hcs Htr Hfresh Hids.
+  destruct (upload_canonical c f cs parts st0 Hcs Hfresh Hids) as [st [Hrun [Hst Hos]]].
+  destruct (delete_cleanup_inv c f cs _ st Htr Hst) as [st' [Hdel [Hnc [Hnf [Hnm Hother]]]]].
+  exists st, st'. split; [exact Hrun|]. split; [exact Hdel|]. split; [exact Hnc|]. split; [exact Hnf|].
+  split; [exact Hnm|]. split; [|exact Hother].
+  unfold dopen. rewrite (find_file_none _ _ Hnf). reflexivity.
+Qed.
